@@ -41,6 +41,13 @@ resumes one operation from inside another one).
     {"kind": "rand", "seed": s, "tp": p}               uniform choice, timer with prob. p
     {"kind": "replay", "actions": [...]}               exact replay of a recorded run
 
+Monitors (wrapped from outside, they change no behaviour): twisted's
+`DeferredLock.acquire/release` (who takes / releases which node lock: a release
+by an operation that does not own the lock is the root-cause signature of F15),
+each node's `virtQubits` list (which function mutates it without that node's
+lock), `simulatedQubit.remote_measure_inplace` (which logical qubit a coin is
+drawn for).
+
 `run_schedule(case, spec)` executes prefix + concurrent phase + settle on a fresh
 `SimNet` and returns a record (outcomes, completion, lock flags at idle, views,
 well-formedness problems, monitor events, the recorded action list).
@@ -622,6 +629,15 @@ class Exec:
         k = op[0]
         if k == "new":
             return c.callRemote("new_qubit")
+        # harness-only client operations (directed witnesses): a client that takes a node lock through the public
+        # PB method, keeps it for a while on the fake clock, releases it
+        if k == "lock":
+            return c.callRemote("get_global_lock")
+        if k == "unlock":
+            return c.callRemote("release_global_lock")
+        if k == "sleep":
+            from twisted.internet.task import deferLater
+            return deferLater(self.net.clock, float(op[1]), lambda: None)
         if k == "g1":
             return self._r(tag, op[1]).callRemote("apply_" + op[2])
         if k == "g2":
@@ -666,7 +682,10 @@ class Exec:
             r = net.run(self.issue(tag, op))
             out = self.absorb_result(tag, op, r)
             if out.startswith("err:") or out in ("val:None", "val:False") and op[0] in ("send",):
-                raise RuntimeError("prefix op %r failed: %s %s" % (op, out, S.error_text(r)[:200]))
+                raise core.MachineryError(
+                    "placement %s cannot be built: sequential op %r fails with %s %s -- a SEQUENTIAL defect (C01/C05 "
+                    "territory); C03/C04 explore concurrency on top of working sequential operations" % (
+                        self.case.get("name"), op, out, S.error_text(r)[:160]))
         net.settle()
         for lab in list(self.objs):
             w = self.where(lab)
@@ -1487,7 +1506,7 @@ def run_task(task):
     out = Out()
     try:
         _run_task(task, out)
-    except Exception as e:            # a harness failure must not look like a pass
+    except Exception:                 # a harness failure must not look like a pass
         import traceback
         out.notes.append("HARNESS-ERROR in task %s: %s" % (jkey(task.get("conc"))[:200], traceback.format_exc()[-600:]))
         out.counts["~harness errors"] += 1
@@ -1562,34 +1581,6 @@ def _run_task(task, out):
             go(spec)
     if len(out.samples) < 1:
         out.samples.append({"placement": base.get("name"), "conc": base["conc"], "schedules": out.n})
-
-
-# ---------------------------------------------------------------------------
-# harness-only client operations (directed witnesses): a client that takes a
-# node lock through the public PB method, keeps it for a while, releases it
-# ---------------------------------------------------------------------------
-
-def _issue_special(ex, tag, op):
-    c = ex.clients[tag]
-    if op[0] == "lock":
-        return c.callRemote("get_global_lock")
-    if op[0] == "unlock":
-        return c.callRemote("release_global_lock")
-    if op[0] == "sleep":
-        from twisted.internet.task import deferLater
-        return deferLater(ex.net.clock, float(op[1]), lambda: None)
-    return None
-
-
-_orig_issue = Exec.issue
-
-
-def _issue(self, tag, op):
-    d = _issue_special(self, tag, op)
-    return d if d is not None else _orig_issue(self, tag, op)
-
-
-Exec.issue = _issue
 
 
 # ---------------------------------------------------------------------------
@@ -1986,3 +1977,28 @@ def replay_check(ctx, prop, res):
         sorted(o.viol) or "no violation"))
     res.rule = "replay of one recorded schedule"
     return res
+
+
+def search(ctx, prop, res, broken):
+    """targeted search when a proof obligation / skeleton no longer checks but the regular run found no failing
+    schedule: every pair class of ALL placements (thorough plan, pairs and single ops only) at delay bound 1 with
+    timer races, for at most 5 minutes"""
+    rng = random.Random(ctx.seed + 1)
+    tasks = [dict(t, grid=1, timer2=False, timer_on_grid=False, rand=2) for t in plan(prop, True, rng) if len(t["conc"]) <= 2]
+    outs, wall = run_tasks(tasks, 300)
+    known = {e["key"] for e in core.known_findings(prop) if e.get("status") == "open"}
+    n = 0
+    merged = {}
+    for o in outs:
+        if o is None:
+            continue
+        n += o.n
+        for k, v in o.viol.items():
+            k = resolve_key(k, known)[0]
+            if k not in merged or tuple(v[0]) < tuple(merged[k][0]):
+                merged[k] = v
+    for k in sorted(merged):
+        res.violation(k, merged[k][1], shrink(prop, k, merged[k][2]) or merged[k][2])
+    res.evaluations += n
+    res.notes.append("targeted search (broken: %s): %d more schedules on all placements, %d keys" % (
+        [b.get("decl") for b in broken][:4], n, len(merged)))
